@@ -311,6 +311,67 @@ theorem opReaddirplus_hnds (e : Env) (s : St) (sp : Spec) (ino : Ino) (hd : Hnd)
       simp only at hr
       rw [hr, hck, hcc, handles_of_tables h1]; exact h
 
+/-- getattr / rename / unlink only move descriptors around and answer `ok` or an error -/
+theorem opGetattr_plain (e : Env) (s : St) (i : Ino) (hd : Option Hnd) (hr : Errno) :
+    (opGetattr e s i hd hr).1.tables = s.tables
+    ∧ ((opGetattr e s i hd hr).2 = .ok ∨ ∃ er, (opGetattr e s i hd hr).2 = .err er) := by
+  unfold opGetattr
+  split
+  · exact ⟨rfl, Or.inr ⟨_, rfl⟩⟩
+  · split
+    · split
+      · exact ⟨rfl, Or.inl rfl⟩
+      · exact ⟨rfl, Or.inr ⟨_, rfl⟩⟩
+    · split
+      · exact ⟨rfl, Or.inl rfl⟩
+      · split
+        · exact ⟨rfl, Or.inr ⟨_, rfl⟩⟩
+        · have h1 := tables_allocFd e s
+          split
+          · rename_i heq; rw [heq] at h1; exact ⟨h1, Or.inr ⟨_, rfl⟩⟩
+          · rename_i heq; rw [heq] at h1
+            refine ⟨by rw [tables_freeFd]; exact h1, ?_⟩
+            split
+            · exact Or.inr ⟨_, rfl⟩
+            · exact Or.inl rfl
+
+theorem opRename_plain (e : Env) (s : St) (p1 : Ino) (st1 : Bool) (p2 : Ino) (st2 : Bool) (hr : Errno) :
+    (opRename e s p1 st1 p2 st2 hr).1.tables = s.tables
+    ∧ ((opRename e s p1 st1 p2 st2 hr).2 = .ok ∨ ∃ er, (opRename e s p1 st1 p2 st2 hr).2 = .err er) := by
+  unfold opRename
+  split
+  · rename_i d1 d2 _ _
+    have h1 := tables_getFile e s d1 st1
+    split
+    · rename_i heq; rw [heq] at h1; exact ⟨h1, Or.inr ⟨_, rfl⟩⟩
+    · rename_i s1 heq; rw [heq] at h1
+      have h2 := tables_getFile e s1 d2 st2
+      split
+      · rename_i heq2; rw [heq2] at h2
+        exact ⟨by rw [tables_closeTemp, h2]; exact h1, Or.inr ⟨_, rfl⟩⟩
+      · rename_i heq2; rw [heq2] at h2
+        refine ⟨by simp only [tables_closeTemp, h2]; exact h1, ?_⟩
+        split
+        · exact Or.inr ⟨_, rfl⟩
+        · exact Or.inl rfl
+  · exact ⟨rfl, Or.inr ⟨_, rfl⟩⟩
+
+theorem opUnlink_plain (e : Env) (s : St) (p : Ino) (pst : Bool) (hr : Errno) :
+    (opUnlink e s p pst hr).1.tables = s.tables
+    ∧ ((opUnlink e s p pst hr).2 = .ok ∨ ∃ er, (opUnlink e s p pst hr).2 = .err er) := by
+  unfold opUnlink
+  split
+  · exact ⟨rfl, Or.inr ⟨_, rfl⟩⟩
+  · rename_i d _
+    have h1 := tables_getFile e s d pst
+    split
+    · rename_i heq; rw [heq] at h1; exact ⟨h1, Or.inr ⟨_, rfl⟩⟩
+    · rename_i heq; rw [heq] at h1
+      refine ⟨by simp only [tables_closeTemp]; exact h1, ?_⟩
+      split
+      · exact Or.inr ⟨_, rfl⟩
+      · exact Or.inl rfl
+
 /-- **the handle table is the client's set of held handles**, request by request -/
 theorem step_hnds (e : Env) (s : St) (sp : Spec) (op : Op) (h : s.handles = sp.hnds) :
     (step e s op).1.handles = (sp.step op (step e s op).2).hnds := by
@@ -374,27 +435,21 @@ theorem step_hnds (e : Env) (s : St) (sp : Spec) (op : Op) (h : s.handles = sp.h
       · exact h
   | readdirplus i hd dhr lst fit tl => exact opReaddirplus_hnds e s sp i hd dhr lst fit tl h
   | getattr i hd hr =>
-    have : (step e s (.getattr i hd hr)).1.tables = s.tables := by
-      simp only [step, opGetattr]
-      split
-      · rfl
-      · split
-        · split <;> rfl
-        · split
-          · rfl
-          · split
-            · rfl
-            · have h1 := tables_allocFd e s
-              split
-              · rename_i heq; rw [heq] at h1; exact h1
-              · rename_i heq; rw [heq] at h1; rw [tables_freeFd]; exact h1
-    rw [handles_of_tables this]
-    have hs : ∀ r, (sp.step (.getattr i hd hr) r).hnds = sp.hnds := by
-      intro r; cases r <;> simp [Spec.step, deliver_hnds, deliverAll_hnds]
-      all_goals sorry
-    rw [hs]; exact h
-  | rename p1 st1 p2 st2 hr => sorry
-  | unlink p pst hr => sorry
+    obtain ⟨ht, hres⟩ := opGetattr_plain e s i hd hr
+    show (opGetattr e s i hd hr).1.handles = (sp.step (.getattr i hd hr) (opGetattr e s i hd hr).2).hnds
+    rw [handles_of_tables ht]
+    rcases hres with x | ⟨er, x⟩ <;> rw [x] <;> exact h
+  | rename p1 st1 p2 st2 hr =>
+    obtain ⟨ht, hres⟩ := opRename_plain e s p1 st1 p2 st2 hr
+    show (opRename e s p1 st1 p2 st2 hr).1.handles
+      = (sp.step (.rename p1 st1 p2 st2 hr) (opRename e s p1 st1 p2 st2 hr).2).hnds
+    rw [handles_of_tables ht]
+    rcases hres with x | ⟨er, x⟩ <;> rw [x] <;> exact h
+  | unlink p pst hr =>
+    obtain ⟨ht, hres⟩ := opUnlink_plain e s p pst hr
+    show (opUnlink e s p pst hr).1.handles = (sp.step (.unlink p pst hr) (opUnlink e s p pst hr).2).hnds
+    rw [handles_of_tables ht]
+    rcases hres with x | ⟨er, x⟩ <;> rw [x] <;> exact h
   | destroy root =>
     simp only [step, opDestroy]
     show (importRoot e (clearAll s) root).1.handles = []
@@ -407,5 +462,20 @@ theorem step_hnds (e : Env) (s : St) (sp : Spec) (op : Op) (h : s.handles = sp.h
     split
     · rename_i heq; rw [heq] at this; exact this.trans h
     · rename_i heq; rw [heq] at this; exact this.trans h
+
+theorem run_hnds (e : Env) (h : List (Option Nat × Op)) (s : St) (sp : Spec) (hh : s.handles = sp.hnds) :
+    (run e s h).1.handles = (sp.run h (run e s h).2).hnds := by
+  induction h generalizing s sp with
+  | nil => exact hh
+  | cons x r ih =>
+    obtain ⟨hd, op⟩ := x
+    simp only [run]
+    apply ih
+    unfold stepCap
+    have := step_hnds e { s with cap := hd.map (s.fds + ·) } sp op hh
+    split
+    rename_i s1 r1 heq
+    rw [heq] at this
+    exact this
 
 end Fbr.PtRefs
